@@ -134,7 +134,7 @@ def batch(chk, tier, race):
         calls.append(dict(k="derive", a=priv, b=0, c=0, d=0))
         calls.append(dict(k="sm3", a=put(rb(rng, rng.choice([0, 55, 64, 200]))), b=0, c=0, d=0))
     rng.shuffle(calls)
-    return dict(pool=pool, key=key, calls=calls, workers=16, reps=(20 if tier == "quick" else 400))
+    return dict(pool=pool, key=key, calls=calls, workers=16, reps=(20 if tier == "quick" else 2000))
 
 
 def expand(pool, key, calls, results):
